@@ -483,7 +483,7 @@ def gen_operator_cases(rng):
     ]
     rng.shuffle(qs)
     out = []
-    for q in qs[:40]:
+    for q in qs[:48]:
         out.append({"setup": setup, "sql": q, "features": ["operators"], "ordered": False, "nkeys": 0})
     return out
 
